@@ -80,13 +80,13 @@ Fixpoint retreat (n : nat) (pre rest : bytes) : option (bytes * bytes) :=
             end
   end.
 
-(* move_cursor(offset): isize arithmetic; the cursor of a 64 KiB packet is far
-   from isize::MAX, so checked_add fails only for offsets near the ends of the
-   isize range, which are out of bounds anyway *)
+(* move_cursor(offset): isize arithmetic. A slice is never longer than
+   isize::MAX bytes, so when checked_add overflows the mathematical sum is
+   < 0 or > len and the bounds test below answers PacketBad as well; the
+   overflow test is therefore not modelled separately. *)
 Definition move_cursor (off : Z) : R unit := fun b =>
   let new := (Z.of_N (cursor b) + off)%Z in
   if (new <? 0)%Z || (Z.of_N (data_length b) <? new)%Z
-     || (new <? - 2 ^ 63)%Z || (2 ^ 63 - 1 <? new)%Z
   then (Err PacketBad, b)
   else
     (* distance from the zipper position (= len when over > 0) *)
